@@ -1,6 +1,7 @@
 package props
 
 import (
+	"encoding/json"
 	"fmt"
 	"runtime"
 	"time"
@@ -11,7 +12,33 @@ import (
 	"github.com/frobnitzem/go-p9p/zzverif/vsync"
 )
 
-func init() { Registry["C13"] = c13 }
+func init() {
+	Registry["C13"] = c13
+	HistoryReplayers["C13"] = func(raw []byte) ([]explore.Finding, error) {
+		var h []SOp
+		if err := json.Unmarshal(raw, &h); err != nil {
+			return nil, err
+		}
+		vsync.SeqMode = true
+		return sessExec("C13", 9, c13Extra)(h).Findings, nil
+	}
+	HistoryReplayers["C08"] = func(raw []byte) ([]explore.Finding, error) {
+		var h []SOp
+		if err := json.Unmarshal(raw, &h); err != nil {
+			return nil, err
+		}
+		vsync.SeqMode = true
+		return sessExec("C08", 9, nil)(h).Findings, nil
+	}
+	HistoryReplayers["C18"] = func(raw []byte) ([]explore.Finding, error) {
+		var h []ROp
+		if err := json.Unmarshal(raw, &h); err != nil {
+			return nil, err
+		}
+		vsync.SeqMode = true
+		return c18Exec(h).Findings, nil
+	}
+}
 
 // c13Extra is evaluated on the instance after the last step of every
 // history: the release invariant, then Stop and the final accounting.
